@@ -282,7 +282,8 @@ def decodeIndefMems : Nat â†’ Bytes â†’ Except DErr (List (W Ã— Bytes Ã— Item) Ã
         | .ok (ms, rest''') => .ok ((kw, k, v) :: ms, rest''')
 end
 
-def decode (b : Bytes) : Except DErr (Item Ã— Bytes) := decodeItem (b.length + 1) b
+/-- fuel: every nesting level costs two units (item, list) and at least one byte -/
+def decode (b : Bytes) : Except DErr (Item Ã— Bytes) := decodeItem (2 * b.length + 2) b
 
 /-- a stream: items back to back until the input is exhausted -/
 def decodeAll : Nat â†’ Bytes â†’ Except DErr (List Item)
